@@ -1302,7 +1302,13 @@ class TOTP:
             # otherwise make a new one that's bound to expected wallet.
             if cls.wallet == source.wallet:
                 return source
-            source = source.to_dict(encrypt=False)
+            # NOTE: to_dict() leaves out fields that match the defaults of the *source's* class;
+            #       this class may have other defaults (set via .using()), so spell them out.
+            obj = source
+            source = obj.to_dict(encrypt=False)
+            source.update(alg=obj.alg, digits=obj.digits, period=obj.period)
+            if obj.issuer:
+                source["issuer"] = obj.issuer
         if isinstance(source, dict):
             return cls.from_dict(source)
         # NOTE: letting to_unicode() raise TypeError in this case
